@@ -77,7 +77,7 @@ using Vec = tbb::concurrent_vector<Elem, ThrowAlloc<Elem>>;
 struct Call { int thread; char op; long d, val; long start = -1, len = 0; bool ok = false, threw = false; uint64_t inv = 0, resp = 0; const Elem* addr0 = nullptr; };
 static std::vector<Call> C; static std::vector<std::vector<std::string>> g_ops; static Vec* V; static int g_nt; static long g_prefill;
 static long n_overlap = 0, n_inflight = 0, n_threw = 0, n_reads = 0, n_foreign_seg = 0;
-static bool g_faulted = false; static long n_at_ok = 0, n_at_threw = 0;
+static bool g_faulted = false; static long n_at_ok = 0, n_at_threw = 0, n_ambiguous_after_fault = 0;
 
 static void thread_fn(void* p) {
     int t = (int)(intptr_t)p;
@@ -106,7 +106,10 @@ static void thread_fn(void* p) {
             else if (c == 'A') { it = V->grow_to_at_least((size_t)a); }
             else if (c == 'B') { g_skip = true; Elem e((int)b); g_skip = false; it = V->grow_to_at_least((size_t)a, e); }
             start = it - V->begin(); ok = true;
-            if (c == 'A' || c == 'B') { len = start < a ? a - start : 0; if (!g_fault_fired && V->size() < (size_t)a) vs_violation("GROW-TO-AT-LEAST", "grow_to_at_least(%ld) returned with size()=%zu: some element below n has no storage yet", a, V->size()); }
+            if (c == 'A' || c == 'B') { len = start < a ? a - start : 0;
+                // A call that appended nothing returns begin() + size(); once a fault has fired size() is capped by the allocated prefix and can lie below n,
+                // so from then on "start < n" no longer tells that this call appended [start, n): no range is attributed to it
+                if (g_fault_fired && len > 0) { len = 0; n_ambiguous_after_fault++; } if (!g_fault_fired && V->size() < (size_t)a) vs_violation("GROW-TO-AT-LEAST", "grow_to_at_least(%ld) returned with size()=%zu: some element below n has no storage yet", a, V->size()); }
             if (len > 0) a0 = &*it;
         } catch (Boom&) { threw = true; } catch (std::bad_alloc&) { threw = true; } catch (std::exception&) { threw = true; }
         (void)size_before;
